@@ -239,6 +239,20 @@ static bool checkTimeZoneError(XSValue::DataType       const &datatype
 //  Local Data
 // ---------------------------------------------------------------------------
 
+//
+//  Returns the number of XMLCh taken by the XML character ptr points to:
+//  2 for a surrogate pair (a character outside the BMP),
+//  1 for any other valid character and
+//  0 if there is no valid character (this includes unpaired surrogates)
+//
+static inline XMLSize_t xmlCharSize(const XMLCh* const ptr, const bool isVer10)
+{
+    if (ptr[0] >= 0xD800 && ptr[0] <= 0xDBFF)
+        return (ptr[1] >= 0xDC00 && ptr[1] <= 0xDFFF) ? 2 : 0;
+
+    return (isVer10 ? XMLChar1_0::isXMLChar(ptr[0]) : XMLChar1_1::isXMLChar(ptr[0])) ? 1 : 0;
+}
+
 static const XMLCh Separator_20[] = {chSpace, chNull};
 static const XMLCh Separator_ws[] = {chSpace, chLF, chCR, chHTab, chNull};
 
@@ -709,19 +723,13 @@ bool XSValue::validateStrings(const XMLCh*         const content
             {
                 const XMLCh*   rawPtr = content;
 
-                if (version == ver_10) {
-                    while (*rawPtr)
-                        if (!XMLChar1_0::isXMLChar(*rawPtr++)) {
-                            isValid = false;
-                            break;
-                        }
-                }
-                else {
-                    while (*rawPtr)
-                        if (!XMLChar1_1::isXMLChar(*rawPtr++)) {
-                            isValid = false;
-                            break;
-                        }
+                while (*rawPtr) {
+                    const XMLSize_t charSize = xmlCharSize(rawPtr, version == ver_10);
+                    if (!charSize) {
+                        isValid = false;
+                        break;
+                    }
+                    rawPtr += charSize;
                 }
                 break;
             }
@@ -729,35 +737,18 @@ bool XSValue::validateStrings(const XMLCh*         const content
             {
                 const XMLCh*   rawPtr = content;
 
-                if (version == ver_10) {
-                    while (*rawPtr) {
-                        if (!XMLChar1_0::isXMLChar(*rawPtr)) {
-                            isValid = false;
-                            break;
-                        }
-                        else if (*rawPtr == chCR || *rawPtr == chLF || *rawPtr == chHTab) {
-                            isValid = false;
-                            break;
-                        }
-                        else {
-                            rawPtr++;
-                        }
+                while (*rawPtr) {
+                    const XMLSize_t charSize = xmlCharSize(rawPtr, version == ver_10);
+                    if (!charSize) {
+                        isValid = false;
+                        break;
                     }
-                }
-                else {
-                    while (*rawPtr) {
-                        if (!XMLChar1_1::isXMLChar(*rawPtr)) {
-                            isValid = false;
-                            break;
-                        }
-                        else if (*rawPtr == chCR || *rawPtr == chLF || *rawPtr == chHTab) {
-                            isValid = false;
-                            break;
-                        }
-                        else {
-                            rawPtr++;
-                        }
-
+                    else if (*rawPtr == chCR || *rawPtr == chLF || *rawPtr == chHTab) {
+                        isValid = false;
+                        break;
+                    }
+                    else {
+                        rawPtr += charSize;
                     }
                 }
                 break;
@@ -777,7 +768,8 @@ bool XSValue::validateStrings(const XMLCh*         const content
                     }
                     else {
                         while (*rawPtr) {
-                            if (!XMLChar1_0::isXMLChar(*rawPtr)) {
+                            const XMLSize_t charSize = xmlCharSize(rawPtr, true);
+                            if (!charSize) {
                                 isValid = false;
                                 break;
                             }
@@ -798,7 +790,7 @@ bool XSValue::validateStrings(const XMLCh*         const content
                                 inWS = false;
                             }
 
-                            rawPtr++;
+                            rawPtr += charSize;
                         }
                     }
                 }
@@ -810,7 +802,8 @@ bool XSValue::validateStrings(const XMLCh*         const content
                     }
                     else {
                         while (*rawPtr) {
-                            if (!XMLChar1_1::isXMLChar(*rawPtr)) {
+                            const XMLSize_t charSize = xmlCharSize(rawPtr, false);
+                            if (!charSize) {
                                 isValid = false;
                                 break;
                             }
@@ -830,7 +823,7 @@ bool XSValue::validateStrings(const XMLCh*         const content
                             else {
                                 inWS = false;
                             }
-                            rawPtr++;
+                            rawPtr += charSize;
                         }
                     }
                 }
